@@ -443,7 +443,69 @@ func (s *c04State) recordSigned(i int, flag byte) {
 	s.sigs++
 }
 
+// inputCountSweep: the number of inputs walks through 1..1024 with the run index (every count is visited dozens of
+// times per quick check). One input is signed; then the outpoint of one OTHER input — the last one, the first one or a
+// seeded one — is changed on the verifier's copy. Whether the signature survives is decided by the model alone.
+func (w *c04World) inputCountSweep(c *kernel.RunCtx) {
+	n := 1 + (c.RunIdx/8)%1024
+	s := &c04State{c: c, tx: bt.NewTx(), shared: map[int]*bscript.Script{}}
+	c.Begin("sweep")
+	kb := c.Bytes(32)
+	kb[0] = kb[0]&0x7f | 1
+	idx := c.Choose(n)
+	flag := c04Flags[c.Choose(len(c04Flags))]
+	victim := []int{n - 1, 0, c.Choose(n)}[c.Choose(3)]
+	nout := c.Choose(3)
+	c.End()
+	priv, pub := bec.PrivKeyFromBytes(bec.S256(), kb)
+	p := &c04Party{key: priv, pub: pub.SerialiseCompressed()}
+	p.h160 = crypto.Hash160(p.pub)
+	s.parties = []*c04Party{p}
+	lock := p2pkh(p.h160)
+	for i := 0; i < n; i++ {
+		u := &c04UTXO{owner: 0, vout: uint32(i % 7), value: uint64(1000 + i), script: lock}
+		u.txid[0], u.txid[1], u.txid[31] = byte(i), byte(i>>8), 0x5a
+		if err := s.tx.FromUTXOs(&bt.UTXO{TxID: displayID(u.txid), Vout: u.vout, Satoshis: u.value, LockingScript: scriptPtr(lock)}); err != nil {
+			c.Fail("api", "FromUTXOs", "FromUTXOs failed: %v", err)
+			return
+		}
+		s.meta = append(s.meta, &c04Meta{utxo: u})
+	}
+	for i := 0; i < nout; i++ {
+		s.tx.AddOutput(&bt.Output{Satoshis: uint64(10 + i), LockingScript: scriptPtr(lock)})
+	}
+	c.Exec()
+	if err := s.tx.FillInput(context.Background(), &unlocker.Simple{PrivateKey: priv}, bt.UnlockerParams{InputIdx: uint32(idx), SigHashFlags: sighash.Flag(flag)}); err != nil {
+		c.Fail("sign-failed", flagName(flag), "FillInput(%d of %d inputs, %s) failed: %v", idx, n, flagName(flag), err)
+		return
+	}
+	u := s.meta[idx].utxo
+	before := models.Projection(s.model(), idx, flag, u.value, u.script)
+	if ok, why := s.verify(s.verifierCopy(), idx, u.value, u.script, flag); !ok {
+		c.Fail("rejects-unchanged-commitment", flagName(flag), "input %d of a transaction with %d inputs, signed with %s, is rejected (%s)", idx, n, flagName(flag), why)
+		return
+	}
+	if victim == idx {
+		return
+	}
+	// the verifier is shown a transaction in which one other input spends a different output
+	s.tx.Inputs[victim].PreviousTxOutIndex ^= 0x10
+	after := models.Projection(s.model(), idx, flag, u.value, u.script)
+	want := bytes.Equal(before, after)
+	got, why := s.verify(s.verifierCopy(), idx, u.value, u.script, flag)
+	if got != want {
+		c.Fail(map[bool]string{true: "accepts-changed-commitment", false: "rejects-unchanged-commitment"}[got], flagName(flag),
+			"%d inputs, input %d signed with %s, then the outpoint of input %d changed: accepted=%v (%s), model says %v", n, idx, flagName(flag), victim, got, why, want)
+		return
+	}
+	c.Count("probe.input_count_sweep", 1)
+}
+
 func (w *c04World) Run(c *kernel.RunCtx) {
+	if c.RunIdx%8 == 5 {
+		w.inputCountSweep(c)
+		return
+	}
 	s := &c04State{c: c, tx: bt.NewTx()}
 	c.Begin("setup")
 	np := 2 + c.Choose(3)
